@@ -62,6 +62,11 @@ impl Mutations {
         self.entity_ack = true;
     }
 
+    /// Returns `false` if [`Self::skip_entity_ack`] was called for the current entity.
+    pub(crate) fn entity_ack(&self) -> bool {
+        self.entity_ack
+    }
+
     /// Excludes the current entity from acknowledgment of the message it will be written into.
     ///
     /// Needed when the entity has a mutation that wasn't sent on this tick due to its send rate.
